@@ -110,7 +110,7 @@ func (t *tr) isPkg(e ast.Expr) (string, bool) {
 
 func isLogger(e ast.Expr) bool {
 	// m.logger.X(...), logger.X(...), log.X(...)
-	s := text(e)
+	s := strings.ToLower(text(e))
 	return strings.Contains(s, "logger.") || strings.HasPrefix(s, "log.")
 }
 
@@ -517,11 +517,24 @@ func recvType(fd *ast.FuncDecl) string {
 }
 
 func main() {
-	if len(os.Args) != 3 {
-		fmt.Fprintln(os.Stderr, "usage: golite <repo root> <out.v>")
+	if len(os.Args) != 3 && len(os.Args) != 4 {
+		fmt.Fprintln(os.Stderr, "usage: golite <repo root> <out.v> [<loops-out.v>]")
 		os.Exit(2)
 	}
 	root, out := os.Args[1], os.Args[2]
+	if len(os.Args) == 4 {
+		txt := translateLoops(root, func(rel string) *ast.File {
+			f, err := parser.ParseFile(fset, filepath.Join(root, rel), nil, 0)
+			if err != nil {
+				return nil
+			}
+			return f
+		})
+		if err := os.WriteFile(os.Args[3], []byte(txt), 0o644); err != nil {
+			fmt.Fprintln(os.Stderr, "golite:", err)
+			os.Exit(1)
+		}
+	}
 	var b strings.Builder
 	b.WriteString("(* GENERATED by harness/translators/golite from the Go source of the repository; do not edit. *)\n")
 	b.WriteString("From Coq Require Import String List ZArith.\nFrom Verif Require Import Model.GoLite.\nImport ListNotations.\nOpen Scope string_scope.\nOpen Scope list_scope.\n\n")
